@@ -32,6 +32,9 @@ REGRESSIONS = [
     ('stable-sort', 'SequenceOf(Integer)', [('SExtend', [('PInt', 11), ('PInt', 5), ('PInt', 21), ('PInt', 12), ('PInt', 41)]),
                                             ('SSortKey', 10, True), ('SIter',), ('SEncode',), ('SSortKey', 10, False), ('SIter',)]),
     ('stable-sort', 'SetOf(Integer)', [('SExtend', [('PInt', 3), ('PInt', 13), ('PInt', 2), ('PInt', 23)]), ('SSortKey', 10, True), ('SIter',)]),
+    ('reads-inert-for-==', 'Seq4', [('RSetItem', ('KName', 0), ('PInt', 1)), ('RSetItem', ('KName', 3), ('PInt', 2)), ('RGetItem', ('KName', 1)),
+                                    ('RIsValue',), ('RValues',), ('REncode',), ('RClone', True), ('RGetItem', ('KName', 1)), ('REncode',)]),
+    ('reads-inert-for-==', 'Set4', [('RSetName', 0, ('PAsn', 3)), ('RGetName', 1, True), ('RSetType', 3, ('PInt', 4)), ('RGetItem', ('KPos', 1)), ('REncode',)]),
     ('stable-sort', 'SequenceOf()', [('SAppend', ('PAsn', 4)), ('SAppend', ('PAsn', 2)), ('SAppend', ('PAsn', 6)), ('SSortKey', 2, True), ('SIter',)]),
 ]
 
